@@ -265,7 +265,8 @@ impl<'a, 'bases, R: Reader> EhHdrTableIter<'a, 'bases, R> {
         let row_size = size * 2;
         let n = u64::try_from(n).map_err(|_| Error::UnsupportedOffset)?;
         self.remain = self.remain.saturating_sub(n);
-        self.table.skip(R::Offset::from_u64(n * row_size)?)?;
+        let skip = n.checked_mul(row_size).ok_or(Error::UnsupportedOffset)?;
+        self.table.skip(R::Offset::from_u64(skip)?)?;
         self.next()
     }
 }
